@@ -24,6 +24,11 @@ def units(tier):
     return arrays.units() + tracklabel.units()
 
 
-def bounded(tier, seed):
+def _bounded(tier, seed):
     from pyvc.native_bridge import bounded_pure
     return [bounded_pure(tier, "c19rel", "relabel-by-track", "every forest <= 4 (thorough 5) nodes, with/without an extra detection", seed)]
+
+
+def bounded(tier, seed):
+    from ._common import model_checks
+    return _bounded(tier, seed) + model_checks(tier, "numpy,networkx", shape=False, seed=seed)
